@@ -4,10 +4,15 @@
 package main
 
 import (
+	"bytes"
 	"encoding/hex"
+	"encoding/json"
 	"fmt"
 	"os"
+	"os/exec"
 	"strings"
+	"sync"
+	"time"
 
 	"github.com/janelia-flyem/dvid/datatype/common/downres"
 	"github.com/janelia-flyem/dvid/datatype/common/labels"
@@ -23,6 +28,8 @@ type jwrite struct {
 	Size   [3]int      `json:"size"`
 	Paints []blk.Paint `json:"paints"`
 	Child  bool        `json:"child,omitempty"` // commit the node and continue on a new child version before this write
+	Par    int         `json:"par,omitempty"`   // consecutive writes with the same non-zero group are issued concurrently
+	Delay  int         `json:"delay,omitempty"` // microseconds this write of a concurrent group starts after the group's first
 }
 
 type jcase struct {
@@ -35,6 +42,8 @@ type jcase struct {
 	Writes []jwrite      `json:"writes,omitempty"`
 	Win    [3]int        `json:"win,omitempty"`
 	WN     int           `json:"wn,omitempty"`
+	WD     [3]int        `json:"wd,omitempty"` // window size per axis (default WN cubed)
+	BS     [3]int        `json:"bs,omitempty"` // labelmap BlockSize (default 16,16,16)
 }
 
 func hx(b []byte) string { return `(hx "` + hex.EncodeToString(b) + `"%string)` }
@@ -43,10 +52,149 @@ func mkBlock(g [3]int, ps []blk.Paint) (*labels.Block, error) {
 	return labels.MakeBlock(blk.ToBytes(blk.Expand(8*g[0], 8*g[1], 8*g[2], ps)), dvid.Point3d{int32(8 * g[0]), int32(8 * g[1]), int32(8 * g[2])})
 }
 
-var httpSeq int
+// httpResult is what one labelmap history gives: the class of every write and the level digests.
+type httpResult struct {
+	Status []uint64       `json:"status"`
+	Levels []string       `json:"levels"`
+	Counts map[string]int `json:"counts"`
+}
+
+// runHTTP plays one history against an in-process DVID.  It runs in a child process of the driver:
+// a panic inside a server goroutine (e.g. a StoreDownres worker) cannot be recovered and would
+// otherwise take the whole run with it.
+func runHTTP(c jcase) (res httpResult) {
+	res.Counts = map[string]int{}
+	dv.Quiet()
+	dv.Open()
+	defer dv.Close()
+	uuid, err := dv.NewRepo("c14")
+	if err != nil {
+		fmt.Fprintln(os.Stderr, err)
+		os.Exit(2)
+	}
+	name := "lm"
+	bs := c.BS
+	if bs == [3]int{} {
+		bs = [3]int{16, 16, 16}
+	}
+	wd := c.WD
+	if wd == [3]int{} {
+		wd = [3]int{c.WN, c.WN, c.WN}
+	}
+	if err := dv.NewInstance(uuid, "labelmap", name, map[string]string{"BlockSize": fmt.Sprintf("%d,%d,%d", bs[0], bs[1], bs[2]), "MaxDownresLevel": fmt.Sprint(c.Max)}); err != nil {
+		fmt.Fprintln(os.Stderr, err)
+		os.Exit(2)
+	}
+	post := func(i int, node string) uint64 {
+		w := c.Writes[i]
+		arr := blk.Expand(w.Size[0], w.Size[1], w.Size[2], w.Paints)
+		url := fmt.Sprintf("/api/node/%s/%s/raw/0_1_2/%d_%d_%d/%d_%d_%d", node, name, w.Size[0], w.Size[1], w.Size[2], w.Off[0], w.Off[1], w.Off[2])
+		if i > 0 {
+			url += "?mutate=true"
+		}
+		r := dv.Post(url, blk.ToBytes(arr))
+		switch {
+		case r.Status == 200:
+			return 0
+		case r.Status >= 500 && strings.Contains(string(r.Body), "anic"):
+			return 2
+		}
+		return 1
+	}
+	var status []uint64
+	failed := false
+	for i := 0; i < len(c.Writes) && !failed; {
+		w := c.Writes[i]
+		if w.Child {
+			if r := dv.Commit(uuid); r.Status != 200 {
+				fmt.Fprintln(os.Stderr, "commit:", r.Status, string(r.Body))
+				os.Exit(2)
+			}
+			child, r := dv.NewVersion(uuid)
+			if r.Status != 200 || child == "" {
+				fmt.Fprintln(os.Stderr, "newversion:", r.Status, string(r.Body))
+				os.Exit(2)
+			}
+			uuid = child
+			res.Counts["http:child-version"]++
+		}
+		// a group of writes issued concurrently (disjoint blocks: the outcome must not depend on the order)
+		j := i + 1
+		for w.Par != 0 && j < len(c.Writes) && c.Writes[j].Par == w.Par && !c.Writes[j].Child {
+			j++
+		}
+		gres := make([]uint64, j-i)
+		if j-i == 1 {
+			gres[0] = post(i, uuid)
+		} else {
+			var wg sync.WaitGroup
+			for k := i; k < j; k++ {
+				wg.Add(1)
+				go func(k int) {
+					defer wg.Done()
+					time.Sleep(time.Duration(c.Writes[k].Delay) * time.Microsecond)
+					gres[k-i] = post(k, uuid)
+				}(k)
+			}
+			wg.Wait()
+			res.Counts[fmt.Sprintf("http:concurrent-group:%d", j-i)]++
+		}
+		for _, st := range gres {
+			status = append(status, st)
+			res.Counts[fmt.Sprintf("http:write-status-class:%d", st)]++
+			if st != 0 {
+				failed = true
+			}
+		}
+		i = j
+		if !failed {
+			if err := downres.BlockOnUpdating(dvid.UUID(uuid), dvid.InstanceName(name)); err != nil {
+				failed = true
+			}
+		}
+	}
+	var levels []string
+	if !failed {
+		n := wd
+		off := c.Win
+		for k := 0; k <= c.Max; k++ {
+			url := fmt.Sprintf("/api/node/%s/%s/raw/0_1_2/%d_%d_%d/%d_%d_%d?scale=%d&supervoxels=true", uuid, name, n[0], n[1], n[2], off[0], off[1], off[2], k)
+			r := dv.Get(url)
+			switch {
+			case r.Status == 200 && len(r.Body) == 8*n[0]*n[1]*n[2]:
+				levels = append(levels, fmt.Sprintf("Ok %d", blk.DigestBytes(r.Body)))
+			case r.Status >= 500 && strings.Contains(string(r.Body), "anic"):
+				levels = append(levels, "Panic")
+			default:
+				levels = append(levels, "Err")
+			}
+			for j := range off {
+				n[j] /= 2
+				off[j] = floorDiv(off[j], 2)
+			}
+		}
+	}
+	res.Status, res.Levels = status, levels
+	return
+}
 
 func main() {
 	o := lib.ParseOpts()
+	if cf := os.Getenv("VERIF_C14_CHILD"); cf != "" {
+		var c jcase
+		b, err := os.ReadFile(cf)
+		if err == nil {
+			err = json.Unmarshal(b, &c)
+		}
+		if err != nil {
+			fmt.Fprintln(os.Stderr, err)
+			os.Exit(2)
+		}
+		res := runHTTP(c)
+		out, _ := json.Marshal(res)
+		fmt.Printf("\nC14RESULT %s\n", out)
+		os.Exit(0)
+	}
 	rng := lib.NewRand(o.Seed)
 	run := lib.NewRun("C14", o)
 	run.Header("From Coq Require Import String.", "From DV Require Import Base.Prelude Model.Block Model.BlockRun Model.Downres Model.DownresRun.", "Local Open Scope N_scope.")
@@ -119,84 +267,47 @@ func main() {
 		run.Add("vote", term, c, fmt.Sprintf("vote/%v/%x", c.N, blk.Digest(arr)))
 	}
 
-	opened := false
 	addHTTP := func(c jcase) {
-		if !opened {
-			dv.Quiet()
-			dv.Open()
-			opened = true
-		}
-		uuid, err := dv.NewRepo(fmt.Sprintf("c14-%d", httpSeq))
-		if err != nil {
-			fmt.Fprintln(os.Stderr, err)
-			os.Exit(2)
-		}
-		httpSeq++
-		name := fmt.Sprintf("lm%d", httpSeq)
-		if err := dv.NewInstance(uuid, "labelmap", name, map[string]string{"BlockSize": "16,16,16", "MaxDownresLevel": fmt.Sprint(c.Max)}); err != nil {
-			fmt.Fprintln(os.Stderr, err)
-			os.Exit(2)
-		}
-		var status []uint64
-		failed := false
-		for i, w := range c.Writes {
-			if w.Child {
-				if r := dv.Commit(uuid); r.Status != 200 {
-					fmt.Fprintln(os.Stderr, "commit:", r.Status, string(r.Body))
-					os.Exit(2)
-				}
-				child, r := dv.NewVersion(uuid)
-				if r.Status != 200 || child == "" {
-					fmt.Fprintln(os.Stderr, "newversion:", r.Status, string(r.Body))
-					os.Exit(2)
-				}
-				uuid = child
-				run.Count("http:child-version")
+		// the history runs in a child process (this binary with VERIF_C14_CHILD set)
+		var res httpResult
+		crashed := false
+		{
+			f, err := os.CreateTemp("", "c14case*.json")
+			if err != nil {
+				fmt.Fprintln(os.Stderr, err)
+				os.Exit(2)
 			}
-			arr := blk.Expand(w.Size[0], w.Size[1], w.Size[2], w.Paints)
-			url := fmt.Sprintf("/api/node/%s/%s/raw/0_1_2/%d_%d_%d/%d_%d_%d", uuid, name, w.Size[0], w.Size[1], w.Size[2], w.Off[0], w.Off[1], w.Off[2])
-			if i > 0 {
-				url += "?mutate=true"
+			json.NewEncoder(f).Encode(c)
+			f.Close()
+			cmd := exec.Command(os.Args[0], "-outdir", o.OutDir)
+			cmd.Env = append(os.Environ(), "VERIF_C14_CHILD="+f.Name())
+			out, err := cmd.Output()
+			os.Remove(f.Name())
+			if i := bytes.LastIndex(out, []byte("C14RESULT ")); err == nil && i >= 0 {
+				err = json.Unmarshal(out[i+len("C14RESULT "):], &res)
+			} else if err == nil {
+				err = fmt.Errorf("no result")
 			}
-			r := dv.Post(url, blk.ToBytes(arr))
-			switch {
-			case r.Status == 200:
-				status = append(status, 0)
-			case r.Status >= 500 && strings.Contains(string(r.Body), "anic"):
-				status = append(status, 2)
-				failed = true
-			default:
-				status = append(status, 1)
-				failed = true
-			}
-			run.Count(fmt.Sprintf("http:write-status:%d", r.Status))
-			if failed {
-				break
-			}
-			if err := downres.BlockOnUpdating(dvid.UUID(uuid), dvid.InstanceName(name)); err != nil {
-				failed = true
+			if err != nil {
+				// the server process died: a panic outside any handler's recover
+				crashed = true
+				res = httpResult{Status: []uint64{2}, Counts: map[string]int{"http:server-process-died": 1}}
 			}
 		}
-		var levels []string
-		if !failed {
-			n := c.WN
-			off := c.Win
-			for k := 0; k <= c.Max; k++ {
-				url := fmt.Sprintf("/api/node/%s/%s/raw/0_1_2/%d_%d_%d/%d_%d_%d?scale=%d&supervoxels=true", uuid, name, n, n, n, off[0], off[1], off[2], k)
-				r := dv.Get(url)
-				switch {
-				case r.Status == 200 && len(r.Body) == 8*n*n*n:
-					levels = append(levels, fmt.Sprintf("Ok %d", blk.DigestBytes(r.Body)))
-				case r.Status >= 500 && strings.Contains(string(r.Body), "anic"):
-					levels = append(levels, "Panic")
-				default:
-					levels = append(levels, "Err")
-				}
-				n /= 2
-				for j := range off {
-					off[j] = floorDiv(off[j], 2)
-				}
+		_ = crashed
+		for k, n := range res.Counts {
+			for q := 0; q < n; q++ {
+				run.Count(k)
 			}
+		}
+		status, levels := res.Status, res.Levels
+		bs := c.BS
+		if bs == [3]int{} {
+			bs = [3]int{16, 16, 16}
+		}
+		wd := c.WD
+		if wd == [3]int{} {
+			wd = [3]int{c.WN, c.WN, c.WN}
 		}
 		ws := make([]string, len(status))
 		for i := range status {
@@ -204,8 +315,9 @@ func main() {
 			ws[i] = fmt.Sprintf("(%s%%Z,%s%%Z,%s%%Z,(%d,%d,%d),%s)", lib.CoqZ(int64(w.Off[0])), lib.CoqZ(int64(w.Off[1])), lib.CoqZ(int64(w.Off[2])),
 				w.Size[0], w.Size[1], w.Size[2], blk.CoqPaints(w.Paints))
 		}
-		term := fmt.Sprintf("(CHttp %d [%s] %s %s %s %d %s [%s])", c.Max, strings.Join(ws, "; "), lib.CoqZ(int64(c.Win[0])), lib.CoqZ(int64(c.Win[1])), lib.CoqZ(int64(c.Win[2])),
-			c.WN, lib.CoqNList(status), strings.Join(levels, "; "))
+		term := fmt.Sprintf("(CHttp %d [%s] %s %s %s (%d,%d,%d) %s [%s])", c.Max, strings.Join(ws, "; "), lib.CoqZ(int64(c.Win[0])), lib.CoqZ(int64(c.Win[1])), lib.CoqZ(int64(c.Win[2])),
+			wd[0], wd[1], wd[2], lib.CoqNList(status), strings.Join(levels, "; "))
+		run.Count(fmt.Sprintf("http:blocksize:%dx%dx%d", bs[0], bs[1], bs[2]))
 		neg := "nonneg"
 		if c.Win[0] < 0 || c.Win[1] < 0 || c.Win[2] < 0 {
 			neg = "negative"
@@ -215,11 +327,6 @@ func main() {
 		run.Count(fmt.Sprintf("http:writes:%d", len(c.Writes)))
 		run.Add("http", term, c, fmt.Sprintf("http/%v/%d/%d/%v", c.Win, c.Max, len(c.Writes), c.Writes[len(c.Writes)-1].Off))
 	}
-	defer func() {
-		if opened {
-			dv.Close()
-		}
-	}()
 
 	dispatch := func(c jcase) {
 		switch c.Kind {
@@ -295,6 +402,38 @@ func main() {
 		}
 		addDown(jcase{Kind: "down", G: g2, Paints: base, Octs: octs})
 	}
+	// non-cubic blocks (every dimension a multiple of 16): the octant offsets differ per axis
+	ncSizes := [][3]int{{2, 4, 2}, {4, 2, 2}, {2, 2, 4}, {2, 3, 4}, {4, 3, 2}} // X<Y, X>Z, all different
+	if o.Thorough() {
+		ncSizes = append(ncSizes, [3]int{2, 4, 6}, [3]int{6, 4, 2})
+	}
+	nNC := 2
+	if o.Thorough() {
+		nNC = 15
+	}
+	for i := 0; i < nNC; i++ {
+		g := ncSizes[(int(o.Seed)+i)%len(ncSizes)]
+		if o.Thorough() {
+			g = ncSizes[i%len(ncSizes)]
+		}
+		fullg := [6]int{0, 0, 0, 8 * g[0], 8 * g[1], 8 * g[2]}
+		octs := nilOcts()
+		given := 0
+		for j := range octs {
+			switch rng.Intn(6) {
+			case 0:
+				octs[j] = []blk.Paint{blk.Fill(uint64(rng.Pick(0, 3, 7)))}
+				given++
+			case 1, 2:
+				octs[j] = []blk.Paint{blk.Hash(fullg, uint64(rng.Pick(2, 4)), uint64(rng.Intn(1<<16)), []uint64{0, 1, 2, 3})}
+				given++
+			}
+		}
+		if given == 0 {
+			octs[rng.Intn(8)] = []blk.Paint{blk.Hash(fullg, 2, uint64(rng.Intn(1<<16)), []uint64{1, 2})}
+		}
+		addDown(jcase{Kind: "down", G: g, Paints: []blk.Paint{blk.Hash(fullg, 4, uint64(rng.Intn(1<<16)), []uint64{4, 5, 0})}, Octs: octs})
+	}
 	for i := 0; i < nVote; i++ {
 		n := [3]int{2 * (1 + rng.Intn(3)), 2 * (1 + rng.Intn(3)), 2 * (1 + rng.Intn(3))}
 		pal := []uint64{0, 0, 1, 2, 3, ^uint64(0)}
@@ -335,6 +474,62 @@ func main() {
 		move := jwrite{Off: [3]int{win[0] + 16, win[1], win[2] + 16}, Size: [3]int{16, 16, 16},
 			Paints: []blk.Paint{blk.Fill(7), blk.Box([6]int{9, 8, 3, 13, 12, 7}, 8)}, Child: k != 0}
 		addHTTP(jcase{Kind: "http", Max: max, Win: win, WN: wn, Writes: []jwrite{ing, move}})
+	}
+	// a labelmap instance with a non-cubic BlockSize: window = 2x2x2 blocks, every block rewritten once more
+	ncBS := [][3]int{{16, 32, 16}, {32, 16, 16}, {16, 16, 32}, {16, 32, 48}}
+	nNCH := 1
+	if o.Thorough() {
+		nNCH = 6
+	}
+	for i := 0; i < nNCH; i++ {
+		bs := ncBS[(int(o.Seed)+i)%len(ncBS)]
+		wd := [3]int{2 * bs[0], 2 * bs[1], 2 * bs[2]}
+		if wd[0]*wd[1]*wd[2] > 40000 && !o.Thorough() {
+			wd[2] = bs[2] // keep the window small: one block deep
+		}
+		win := [3]int{0, 0, 0}
+		if rng.Bool() {
+			win = [3]int{-wd[0], 0, 0}
+		}
+		ws := []jwrite{{Off: win, Size: wd, Paints: []blk.Paint{blk.Hash([6]int{0, 0, 0, wd[0], wd[1], wd[2]}, uint64(rng.Pick(1, 2)), uint64(rng.Intn(1<<16)), []uint64{1, 2, 3, 0})}}}
+		// overwrite one block (solid or noisy)
+		bo := [3]int{win[0] + bs[0]*rng.Intn(wd[0]/bs[0]), win[1] + bs[1]*rng.Intn(wd[1]/bs[1]), win[2] + bs[2]*rng.Intn(wd[2]/bs[2])}
+		ps := []blk.Paint{blk.Fill(uint64(rng.Pick(0, 5)))}
+		if rng.Bool() {
+			ps = []blk.Paint{blk.Hash([6]int{0, 0, 0, bs[0], bs[1], bs[2]}, 2, uint64(rng.Intn(1<<16)), []uint64{0, 4, 1})}
+		}
+		ws = append(ws, jwrite{Off: bo, Size: bs, Paints: ps})
+		addHTTP(jcase{Kind: "http", Max: 1 + rng.Intn(2), Win: win, WD: wd, BS: bs, Writes: ws})
+	}
+	// concurrent writes to sibling blocks of one parent: the pairs are disjoint, so whatever the
+	// interleaving every level must afterwards be the down-sampling of level 0
+	nConc := 2
+	if o.Thorough() {
+		nConc = 8
+	}
+	for i := 0; i < nConc; i++ {
+		win := [3]int{0, 0, 0}
+		ws := []jwrite{ingest(win, []uint64{1, 2, 3})}
+		group := 0
+		rounds := 2
+		if o.Thorough() {
+			rounds = 4
+		}
+		for round := 0; round < rounds; round++ {
+			for _, pair := range [][2][3]int{{{0, 0, 0}, {16, 0, 0}}, {{0, 16, 0}, {16, 16, 0}}, {{0, 0, 16}, {0, 16, 16}}, {{16, 0, 16}, {16, 16, 16}}} {
+				group++
+				delay := []int{0, 100, 300, 700, 1500, 3000}[rng.Intn(6)]
+				for q, off := range pair {
+					d := 0
+					if q == 1 {
+						d = delay
+					}
+					ws = append(ws, jwrite{Off: off, Size: [3]int{16, 16, 16}, Par: group, Delay: d,
+						Paints: []blk.Paint{blk.Hash([6]int{0, 0, 0, 16, 16, 16}, uint64(rng.Pick(2, 4)), uint64(rng.Intn(1<<16)), []uint64{uint64(10 + round), uint64(20 + q), 0})}})
+				}
+			}
+		}
+		addHTTP(jcase{Kind: "http", Max: 1 + rng.Intn(2), Win: win, WN: wn, Writes: ws})
 	}
 	for i := 0; i < nHTTP; i++ {
 		win := [3]int{0, 0, 0}
